@@ -159,5 +159,47 @@ class Histories(common.Suite):
         return case["ens"] + ":" + "".join(sorted(set(obs["outcomes"])))
 
 
+class CollectiveConstraintHistories(Histories):
+    """the same before/after oracle under a COLLECTIVE constraint (ASE FixCom: adjusting the displaced atom shifts
+    every other atom): vetoed attempts and rejections must still restore every atom. No model (positions are no longer
+    integer-valued); oracle only."""
+
+    name = "collective-constraint-histories"
+
+    def cases(self, rng, tier):
+        n = 150 if tier == "quick" else 3000
+        for i in range(n):
+            case = machine.gen_case(rng, "canonical" if i % 3 else "grand", tier)
+            case["constraint"] = "fixcom"
+            case["fixed"] = None
+            for o in case["objs"]:
+                o["apply_constraints"] = True
+                o["max_attempts"] = rng.choice([1, 2, 3])
+            for tr in case["trials"]:
+                tr["checks"] = [rng.random() < 0.45 for _ in tr["checks"]]
+            # exchange moves cannot run with a FixCom constraint attached (ASE refuses `del atoms[i]`)
+            if any(case["objs"][r]["kind"] == "exch" for e in case["table"] for r in machine.tree_refs(e["tree"])):
+                case["ens"] = "canonical"
+                for o in case["objs"]:
+                    if o["kind"] == "exch":
+                        o["kind"] = "disp"
+                case["table"] = [dict(e, tree=(["D", e["tree"][1]] if e["tree"][0] == "X" else e["tree"])) for e in case["table"]]
+                case.pop("template", None)
+                for tr in case["trials"]:
+                    tr["presel"] = [p for p in tr["presel"] if p[1] == "D"]
+            yield case
+
+    def real(self, case):
+        obs = machine.run_real(case, snap=False)
+        obs.pop("sim")
+        return obs
+
+    def model_lines(self, case):
+        return []
+
+    def known_scope(self, case):
+        return None
+
+
 def suites(tier):
-    return [Histories()]
+    return [Histories(), CollectiveConstraintHistories()]
